@@ -319,12 +319,21 @@ func execD(r *verifsim.Run, conns []*dConn, sched bool) *dResult {
 			for ci, c := range conns {
 				a, b := net.Pipe()
 				pipes = append(pipes, a, b)
+				connStart, filesBefore := time.Now(), countFiles(root)
+				overlap := false
 				cam := func() {
 					cameraD(c, b, sched)
 					if sched && slowEnd {
 						if tk := s.TaskByPrefix("spawn:"); tk != nil {
 							s.StallFor(tk, slowFor)
 							r.Fault("slow-disk-at-connection-end")
+							// A writer that has created its file and cannot reach its one-minute rotation while it is
+							// held back keeps to that one file name: the camera may reconnect meanwhile (the next
+							// writer starts while this one still has frames queued and its file open)
+							if !leftovers && countFiles(root) > filesBefore && time.Since(connStart)+slowFor < 55*time.Second {
+								overlap = true
+								r.Probe("reconnect-while-the-previous-writer-is-held-back")
+							}
 						}
 					}
 				}
@@ -340,7 +349,7 @@ func execD(r *verifsim.Run, conns []*dConn, sched bool) *dResult {
 				// held back at the end of its connection may only now create its file, so the next connection
 				// waits that long as well
 				gap := time.Duration(1100+r.Draw(3000)) * time.Millisecond
-				if slowEnd {
+				if slowEnd && !overlap {
 					gap += slowFor
 				}
 				time.Sleep(gap)
@@ -381,6 +390,11 @@ func execD(r *verifsim.Run, conns []*dConn, sched bool) *dResult {
 		res.Files = append(res.Files, parseCPTR(n))
 	}
 	return res
+}
+
+func countFiles(dir string) int {
+	names, _ := filepath.Glob(filepath.Join(dir, "*"))
+	return len(names)
 }
 
 func cameraD(c *dConn, conn net.Conn, sched bool) {
